@@ -1240,5 +1240,68 @@ seed("c20-hostname-takes-lock", "C20", "R-callback-reentrancy", "conn.go",
 	return c.helo
 }""", "a backend calling Hostname from Reset/Logout deadlocks")
 
+seed("c17-enh-default-after-continuation", "C17", "R-enh-default", "conn.go",
+"""	// All responses must include an enhanced code, if it is missing - use
+	// a generic code X.0.0.
+	if enhCode == EnhancedCodeNotSet {
+		cat := code / 100
+		switch cat {
+		case 2, 4, 5:
+			enhCode = EnhancedCode{cat, 0, 0}
+		default:
+			enhCode = NoEnhancedCode
+		}
+	}
+
+	// transform each single line with \\n, into separate lines
+	text = strings.Split(strings.Join(text, "\\n"), "\\n")
+
+	lastLineIndex := len(text) - 1
+	for i := 0; i < lastLineIndex; i++ {
+		// RFC 2034: the enhanced code is repeated on every line.
+		if enhCode == NoEnhancedCode {
+			c.text.PrintfLine("%d-%v", code, text[i])
+		} else {
+			c.text.PrintfLine("%d-%v.%v.%v %v", code, enhCode[0], enhCode[1], enhCode[2], text[i])
+		}
+	}
+""", """	// transform each single line with \\n, into separate lines
+	text = strings.Split(strings.Join(text, "\\n"), "\\n")
+
+	lastLineIndex := len(text) - 1
+	for i := 0; i < lastLineIndex; i++ {
+		// RFC 2034: the enhanced code is repeated on every line.
+		if enhCode == NoEnhancedCode {
+			c.text.PrintfLine("%d-%v", code, text[i])
+		} else {
+			c.text.PrintfLine("%d-%v.%v.%v %v", code, enhCode[0], enhCode[1], enhCode[2], text[i])
+		}
+	}
+
+	// All responses must include an enhanced code, if it is missing - use
+	// a generic code X.0.0.
+	if enhCode == EnhancedCodeNotSet {
+		cat := code / 100
+		switch cat {
+		case 2, 4, 5:
+			enhCode = EnhancedCode{cat, 0, 0}
+		default:
+			enhCode = NoEnhancedCode
+		}
+	}
+""", "continuation lines of a reply with an unset code carry 0.0.0")
+seed("c19-closed-check-after-handle-only", "C19", "R-no-dispatch-after-close", "server.go",
+"""		if c.isClosed() {
+			return nil
+		}
+
+		line, err := c.readLine()""", """		line, err := c.readLine()""", "the loop no longer tests the closed flag at its top",
+more=[("""			c.handle(cmd, arg)
+		} else {""", """			c.handle(cmd, arg)
+			if c.isClosed() {
+				return nil
+			}
+		} else {""")])
+
 json.dump(S, open(os.path.join(os.path.dirname(os.path.abspath(__file__)), "bank.json"), "w"), indent=1)
 print(len(S), "seeds")
